@@ -56,7 +56,14 @@ func (s *scRM) Configure(w *World) {
 	c.QuiesceBudget = 30 * time.Second
 	c.AdvEventMax = 1 * time.Second
 	c.Advances = []time.Duration{time.Millisecond, c.RMInterval / 5, c.RMInterval, 1013 * time.Millisecond}
+	if t.Draw(3, nil) == 0 {
+		// filtered collection: positions also advance through seqno-advanced messages
+		c.ScopeName, c.CollectionNames, c.Collections = "s1", []string{"c1"}, []uint32{8, 8, 9}
+		c.Extra["coll:8"], c.Extra["coll:9"] = "c1", "c2"
+	}
 	w.buildCluster()
+	w.cl.collections["s1.c1"] = 8
+	w.cl.collections["s1.c2"] = 9
 	s.holeVb = -1
 	if c.NReplicas > 0 && t.Draw(2, nil) == 0 {
 		// the session starts with one replica slot unassigned (e.g. after a fail-over); a later map revision fills it
